@@ -56,9 +56,6 @@ def attributeTo (o : Obs) : Option String :=
      && (o.neutral == "ok" || o.neutral == "err") then some "C29-F1"
   else if o.outcome == "abort" && o.kind == "stack-overflow" && chainOps up ≥ 2000 then some "C29-F2"
   else if o.outcome == "timeout" && o.phase == "parse" && maxDepth o.sql ≥ 41 && (contains up "CAST(" || contains up "ARRAY[") then some "C29-F3"
-  else if groupKeys up ≥ 9 && ((o.outcome == "panic" && contains o.kind "morsel_agg::AggregationState::find_perfect_index")
-       || ((o.outcome == "ok" || o.outcome == "err") && o.bg > 0 && contains o.bgkind "get_or_assign_perfect_index"))
-     && (contains o.detail "the len is 8 but the index is 8" || contains o.bgdetail "the len is 8 but the index is 8") then some "C29-F4"
   else if o.outcome == "panic" && contains o.kind "hash_join.rs" && contains o.detail "index out of bounds"
      && (contains up "JOIN" || contains up " IN (" || contains up "INTERSECT" || contains up "EXCEPT" || contains up "EXISTS") then some "C29-F5"
   else if o.outcome == "panic" && (contains o.kind "physical::operators::filter::" || contains o.kind "physical::operators::hash_agg")
@@ -68,8 +65,6 @@ def attributeTo (o : Obs) : Option String :=
   else if ((o.outcome == "abort" && o.kind == "alloc-failure") || (o.outcome == "timeout" && o.phase == "execute")
            || (o.outcome == "panic" && contains o.detail "capacity overflow"))
      && (contains up "REPEAT(" || contains up "LPAD(" || contains up "RPAD(") then some "C29-F11"
-  else if o.outcome == "panic" && contains o.kind "hash_agg" && contains o.detail "Option::unwrap()"
-     && (contains up "MIN(" || contains up "MAX(") then some "C29-F12"
   else none
 
 def strOr (j : Json) (k : String) (d : String := "") : String :=
